@@ -349,6 +349,36 @@ theorem history_lists_all_partial (hiv : A.initVersion ≤ 1) (ops : List (Op A)
   rw [(commandHistory_spec hI i cached).1]
   simp [recordsUpTo]
 
+/-! ### non-vacuity of the hypotheses of the audit theorems -/
+
+/-- A reachable entity of the register aggregate (created, one accepted command, count 2, a
+snapshot, a second store object) together with its log and replayed state; on it a rejected
+command (`fail`), a command without effect (`add 0`) and a vetoed one (`guarded 1`: the
+updated count 3 is a multiple of 3) all exist – the hypotheses of `rejected_only_audit`,
+`noop_no_trace`, `presave_failure_no_trace` and `accepted_owns_one_version` are satisfiable. -/
+example :
+    let ops : List (Op (Reg.regAgg 1)) :=
+      [.add 0 "u" "n0" false, .cmd 0 ⟨"u", .add 2⟩ false, .snap 1 false]
+    let e := run (Ent.empty : Ent (Reg.regAgg 1)) ops
+    let L := specRun ([] : Log (Reg.regAgg 1)) ops
+    Inv e L ∧
+    (∃ w, finalOf L = some w ∧ w.version = 2 ∧
+      (Reg.regAgg 1).process w.st Reg.Cmd.fail = .error Reg.Err.rejected ∧
+      (Reg.regAgg 1).process w.st (Reg.Cmd.add 0) = .ok [] ∧
+      (Reg.regAgg 1).process w.st (Reg.Cmd.guarded 1) = .ok [Reg.Ev.guardedAdd 1] ∧
+      (∃ s', applyEvents (Reg.regAgg 1) w.st [Reg.Ev.guardedAdd 1] = some s' ∧
+        (Reg.regAgg 1).preSave s' [Reg.Ev.guardedAdd 1] = some Reg.Err.veto) ∧
+      (Reg.regAgg 1).process w.st (Reg.Cmd.add 3) = .ok [Reg.Ev.added 3] ∧
+      (∃ s', applyEvents (Reg.regAgg 1) w.st [Reg.Ev.added 3] = some s' ∧
+        (Reg.regAgg 1).preSave s' [Reg.Ev.added 3] = none)) := by
+  refine ⟨run_refines (by decide) inv_empty _, ⟨⟨2, ⟨2, "n0"⟩⟩, rfl, rfl, rfl, rfl, rfl, ⟨_, rfl, rfl⟩, rfl, ⟨_, rfl, rfl⟩⟩⟩
+
+/-- The initial entities of `twoWriters` satisfy the hypothesis of `agg_serialisable`. -/
+example : ∀ e : Nat, Inv (twoWriters.ents e)
+    (specRun ([] : Log (Reg.regAgg 1)) [.add 0 "init" "n0" false]) := by
+  intro e
+  exact run_refines (A := Reg.regAgg 1) (by decide) inv_empty [.add 0 "init" "n0" false]
+
 /-
 The full statement – the same for histories that also contain `drop_aggregate` followed by a
 new `add` of the same handle (delete a CA, create a CA of that name) – is FALSE of the code
